@@ -976,7 +976,7 @@ class FnLower:
         return d == 0
 
     def vname(self, rd):
-        return self.renames.get(rd['id'], rd.get('name'))
+        return self.renames.get(rd['id'], rd.get('name') or ('_p' + rd['id'][-5:]))
 
     def lv(self, e):
         """C lvalue expression for glvalue e"""
@@ -1163,6 +1163,8 @@ class FnLower:
             t = L.deref_t(e['type'])
             args = e.get('inner', [])
             if t[0] in ('builtin', 'ptr') and len(args) == 1: return self.rv(args[0])
+            if t[0] == 'model' and not t[1].startswith('struct') and len(args) <= 1:
+                return self.rv(args[0]) if args else '0'       # e.g. std::atomic<bool>{false} -> _Bool
             if (e.get('elidable') or self.is_copy_or_move_ctor(e['ctorType']['qualType'], qt(e['type']))) and len(args) == 1:
                 if t[0] != 'rec' or self.trivial_copy(t[1]) or e.get('elidable'):
                     a = args[0]
